@@ -545,6 +545,10 @@ func (h *handler) ServeHTTP(w http.ResponseWriter, r *http.Request) {
 	}
 
 	writeResponse, storeErr := h.store.Store(r.Context(), msgType, r)
+	if writeResponse == nil {
+		// A store may return a nil response, in particular together with an error.
+		writeResponse = &WriteResponse{}
+	}
 
 	// Set required X-Prometheus-Remote-Write-Written-* response headers, in all cases, alongwith any user-defined headers.
 	writeResponse.SetHeaders(w)
